@@ -161,9 +161,9 @@ add("C11", "c11",
               dict(name="exh", mode="sched", run="^TestExhaustive$", shards=1, timeout=600),
               dict(name="race", mode="race", run="^TestRaced$", shards=3, scale=1, timeout=600),
               dict(name="loops", mode="race", run="^TestRacedLoops$", shards=2, scale=1, timeout=600),
-              dict(name="types", mode="race", run="^(TestElementTypes|TestLongRun)$", shards=1, scale=1, timeout=600)]},
+              dict(name="types", mode="race", run="^(TestElementTypes|TestLongRun|TestElementsAcrossGC)$", shards=1, scale=1, timeout=600)]},
     {"jobs": [dict(name="sched", mode="sched", run="^TestProps$", shards=10, scale=80, timeout=3000),
-              dict(name="types", mode="race", run="^(TestElementTypes|TestLongRun)$", shards=2, scale=8, timeout=3000),
+              dict(name="types", mode="race", run="^(TestElementTypes|TestLongRun|TestElementsAcrossGC)$", shards=2, scale=8, timeout=3000),
               dict(name="exh", mode="sched", run="^TestExhaustive$", shards=1, timeout=3000),
               dict(name="race", mode="race", run="^TestRaced$", shards=3, scale=30, timeout=3000),
               dict(name="loops", mode="race", run="^TestRacedLoops$", shards=2, scale=15, timeout=3000)]},
